@@ -257,3 +257,97 @@ def search_headers(ck: Check) -> None:
 
 def rerun(ck: Check, camp, inp: dict) -> None:
     case(ck, camp, {k: v for k, v in inp.items() if k != "kind"})
+
+
+# ---------------------------------------------------------------- model side: Gen/HeaderFlow + Model/Header vs the real generate()
+PIECES = {"comment": "# a comment", "blank": "", "doc": '"""Text."""', "future": "from __future__ import annotations", "future2": "from __future__ import division",
+          "import": "import os", "assign": '__all__ = ["Item"]', "string-later": "'not a docstring'"}
+
+
+def header_items(text: str | None) -> list[int] | None:
+    """the header as the model's items (0 docstring in first position, 1 future import, 2 any other statement); None = not Python"""
+    if text is None:
+        return []
+    try:
+        body = ast.parse(text).body
+    except SyntaxError:
+        return None
+    out = []
+    for i, st in enumerate(body):
+        if i == 0 and isinstance(st, ast.Expr) and isinstance(st.value, ast.Constant) and isinstance(st.value.value, str):
+            out.append(0)
+        elif isinstance(st, ast.ImportFrom) and st.module == "__future__" and st.level == 0:
+            out.append(1)
+        else:
+            out.append(2)
+    return out
+
+
+def composed_header(rng) -> str:
+    return "\n".join(PIECES[rng.choice(list(PIECES))] for _ in range(rng.range(1, 4)))
+
+
+def campaign_flow(ck: Check, n_random: int) -> None:
+    """(1) translator completeness, by token count; (2) the model's module (Model/Header.emit on the translated print table) against
+    the module the real generate() writes: is the future import effective / misplaced — for the catalogue of headers and composed ones"""
+    from ..translate import headerflow
+    from . import c19
+
+    camp = ck.campaign("header flow: Gen/HeaderFlow complete (token count) and Model/Header.emit on it == the real generate() on "
+                       "`future import effective / misplaced`, header catalogue + composed headers (text and file)")
+    t0 = time.time()
+    rng = ck.rng.fork("header-flow")
+    ps = headerflow.prints()
+    camp.evaluations += 1
+    if headerflow.print_tokens() != len(ps) + sum(1 for n in _all_prints_without_file() if n):
+        ck.disagree(camp, {"what": "print calls of generate()"}, f"{len(ps)} translated", f"{headerflow.print_tokens()} `print(` tokens")
+    for name in ("body", "custom_file_header", "header", "filename", "modules"):
+        camp.evaluations += 1
+        got = sum(1 for _, n, _, _ in headerflow.bindings() if n == name)
+        want = headerflow.store_tokens(name)
+        if got != want:
+            ck.disagree(camp, {"what": f"bindings of `{name}` in generate()"}, f"{got} translated", f"{want} stores in the source")
+    headers = [(hn, t) for hn, t in HEADERS.items()] + [(f"composed#{i}", composed_header(rng)) for i in range(n_random)]
+    lowest = min(minors())
+    doc = {"title": "Item", "type": "object", "properties": {"a": {"type": "integer"}, "b": {"type": ["string", "null"]}}}
+    jobs = []
+    for hn, text in headers:
+        items = header_items(text)
+        if items is None:
+            camp.hit("header not Python: printed as it is, no prediction")
+            continue
+        for kind in ("dataclasses.dataclass", "pydantic_v2.BaseModel") if not hn.startswith("composed") else (rng.choice(e2e.MODEL_KINDS),):
+            via = "path" if text is not None and rng.chance(1, 2) else "text"
+            jobs.append((hn, text, items, kind, via))
+    replies = ck.driver.run(["version.header" + "".join(f" {i}" for i in items) for _, _, items, _, _ in jobs])
+    for (hn, text, items, kind, via), rep in zip(jobs, replies):
+        camp.evaluations += 1
+        camp.hit("items:" + ("".join("dfc"[i] for i in items) or "-"))
+        inp = {"model": kind, "minor": lowest, "input_kind": "jsonschema", "doc": doc, "opts": {}, "header_text": text, "header_via": via}
+        res, _ = run_case(inp)
+        if not res.ok or not res.files:
+            camp.hit("reported_error")
+            continue
+        code = next(iter(res.files.values()))
+        try:
+            eff, mis = c19.future_import_state(ast.parse(code))
+        except SyntaxError:
+            camp.hit("unparsable(C01)")
+            continue
+        real = f"{1 if eff else 0} {1 if mis is not None else 0}"
+        camp.distinct.add((tuple(items), kind, via))
+        camp.hit("effective" if eff else "misplaced" if mis is not None else "absent")
+        if rep != real:
+            ck.disagree(camp, {"header": text, "items": items, "kind": kind, "via": via}, f"model (effective misplaced): {rep}", f"generate(): {real}")
+        elif len(camp.samples) < 3:
+            camp.samples.append({"header": hn, "items": items, "kind": kind, "via": via, "effective misplaced": real})
+    camp.wall_s = time.time() - t0
+
+
+def _all_prints_without_file() -> list[bool]:
+    """print calls of generate() that have no file= keyword (not in the table; counted by the token check)"""
+    from ..translate import headerflow
+
+    _, fn = headerflow._source()
+    return [True for n in ast.walk(fn) if isinstance(n, ast.Call) and isinstance(n.func, ast.Name) and n.func.id == "print"
+            and not any(kw.arg == "file" for kw in n.keywords)]
